@@ -16,6 +16,7 @@ RULE = ("bijection: for each of the five entropy lengths, entropies {zeros, ones
 ASSUMPTIONS = ["vf/ref/bip39_ref.py (bit-string formulation, hand-rolled PBKDF2) validated on all 24 Trezor vectors incl. seed and xprv "
                "columns; the English word list file itself is shared input"]
 OBLIGATIONS = {
+    "history_sequences": "operation sequences (non-initial process states) explored",
     "invalid_length_refused": "an entropy length other than 16/20/24/28/32 offered", "last_word_all_2048": "all 2048 last words tried on a phrase",
     "accepted_alternative_last_word": "a different last word that is also valid (other entropy bits) was offered",
     "non_list_word": "a token outside the word list", "wrong_word_count": "11/13/23/25/0 words",
@@ -82,7 +83,21 @@ CASES = {"entropy": chk_entropy, "phrase": chk_phrase, "seed": chk_seed}
 
 
 def run_case(kind, case):
+    if kind == "seq":
+        from vf import seqexplore
+        return seqexplore.replay(run_case, case)
     return CASES[kind](case)
+
+
+def seq_ops(job):
+    seed = job["seed"]
+    p12, p24 = base_phrases(seed, 16)[0], base_phrases(seed, 32)[0]
+    w = p12.split()
+    ops = [("entropy", {"ent": "00" * 16}), ("entropy", {"ent": filler(seed, "c10-sq", 32).hex()}), ("entropy", {"ent": "00" * 17}),
+           ("phrase", {"phrase": p12}), ("phrase", {"phrase": p24}), ("phrase", {"phrase": " ".join(w[:-1] + ["zoo" if w[-1] != "zoo" else "abandon"])}),
+           ("phrase", {"phrase": " ".join(w[:-1])}), ("phrase", {"phrase": " ".join([w[0][:-1]] + w[1:])}),
+           ("seed", {"phrase": p12, "pass": ""}), ("seed", {"phrase": p12, "pass": "é"}), ("seed", {"phrase": p24, "pass": "TREZOR"})]
+    return ops
 
 
 def base_phrases(seed, n):
@@ -103,10 +118,15 @@ def jobs(tier, seed):
         for n in LENS:
             for pos in range(n * 3 // 4):
                 js.append({"name": f"position/{n}/{pos}", "part": "pos", "n": n, "pos": pos, "weight": 6})
+    from vf.runner import seq_jobs
+    js += seq_jobs(3, weight=3)
     return js
 
 
 def run_job(job):
+    if job["part"] == "seq":
+        from vf.runner import run_seq_job
+        return run_seq_job(job, seq_ops(job), run_case)
     acc = Acc(job)
     seed, part = job["seed"], job["part"]
     if part == "bij":
